@@ -2654,6 +2654,228 @@ def chk_p_host_around_fitted_module(ctx):
                      t["ncat"] >= 2 or len(getattr(subject, "W", [])) >= 2)
 
 
+# ================================================================ (q) in-place writes into what an accessor returned
+
+
+ACCESSOR_METHODS = ("get_cluster_centers",)          # zero-argument public accessors; get_channel_centers(k) is added per channel
+
+
+def _nested_objects(est):
+    """every artlib object of a nesting with the steps that lead to it from the top: [(path, steps, object)], each object
+    once (SMART's layers host the same modules as `modules`), in a deterministic order"""
+    out, seen = [], set()
+
+    def go(obj, path, steps):
+        if id(obj) in seen:
+            return
+        seen.add(id(obj))
+        out.append((path, steps, obj))
+        for k, v in vars(obj).items():
+            if _is_artlib_object(v):
+                go(v, f"{path}.{k}", steps + [(k, None)])
+            elif isinstance(v, list) and v and all(_is_artlib_object(t) for t in v):
+                for i, t in enumerate(v):
+                    go(t, f"{path}.{k}[{i}]", steps + [(k, i)])
+    go(est, "model", [])
+    return out
+
+
+def _follow(est, steps):
+    obj = est
+    for k, i in steps:
+        obj = getattr(obj, k)
+        if i is not None:
+            obj = obj[i]
+    return obj
+
+
+def _array_leaves(v) -> Optional[list]:
+    """the arrays an accessor handed out (an array, a non-empty list / tuple of arrays, a dict of arrays), else None"""
+    if isinstance(v, np.ndarray):
+        return [v]
+    if isinstance(v, (list, tuple)) and v and all(isinstance(t, np.ndarray) for t in v):
+        return list(v)
+    if isinstance(v, dict) and v and all(isinstance(t, np.ndarray) for t in v.values()):
+        return list(v.values())
+    return None
+
+
+def _read_accessor(obj, acc):
+    kind, name, args = acc
+    v = getattr(obj, name)
+    return v(*args) if kind == "call" else v
+
+
+def accessors_of(est) -> list:
+    """(path, steps, owner class, (kind, name, args)) of every PUBLIC accessor of every object of the nesting that
+    currently returns arrays: public instance attributes, properties of the class, get_cluster_centers(),
+    get_channel_centers(k)"""
+    out = []
+    for path, steps, obj in _nested_objects(est):
+        names = [k for k in vars(obj) if not k.startswith("_") and k != "params"]
+        names += [k for k in dir(type(obj)) if not k.startswith("_") and isinstance(getattr(type(obj), k, None), property)
+                  and k not in names]
+        cands = [("attr", k, ()) for k in names]
+        cands += [("call", k, ()) for k in ACCESSOR_METHODS if callable(getattr(obj, k, None))]
+        if callable(getattr(obj, "get_channel_centers", None)) and isinstance(getattr(obj, "modules", None), list):
+            cands += [("call", "get_channel_centers", (k,)) for k in range(len(obj.modules))]
+        for acc in cands:
+            o = outcome(lambda: _read_accessor(obj, acc))
+            if o[0] == "ok" and _array_leaves(o[1]) is not None and any(a.size for a in _array_leaves(o[1])):
+                out.append((path, steps, type(obj).__name__, acc))
+    return out
+
+
+def _acc_name(acc) -> str:
+    kind, name, args = acc
+    return name + ("(" + ",".join(map(str, args)) + ")" if kind == "call" else "")
+
+
+def _write_into(leaves: list, idiom: str, j: int):
+    """the caller post-processes, in place, the arrays an accessor handed out"""
+    def one(a, how):
+        if a.size == 0:
+            return
+        if how == "scale" and a.dtype.kind == "f":
+            a *= 0.5                                      # for w in model.W: w *= 0.5
+        elif a.dtype.kind == "f":
+            a[...] = (1.0 - a)[::-1]                      # model.W[j][:] = <other values of the same shape>
+        else:
+            a[...] = np.roll(a, 1, axis=0) if how == "scale" else a[::-1].copy()
+    if idiom == "every:scale":
+        for a in leaves:
+            one(a, "scale")
+    elif idiom == "one:assign":
+        one(leaves[j % len(leaves)], "assign")
+    else:                                                 # every:assign
+        for a in leaves:
+            one(a, "assign")
+
+
+def chk_q_accessor_writes(c: Case):
+    """(q) a copy behaves like the model, also for a caller who WRITES IN PLACE into the arrays a public accessor handed
+    out (`for w in model.W: w *= 0.5`, `model.W[j][:] = v`, the results of get_cluster_centers() / get_channel_centers(k),
+    labels_ of a host, of a module inside it).  A history trains the model; a pickle round trip and a deepcopy are taken;
+    then the SAME accessor reads + in-place writes, followed by the SAME partial_fit / predict calls, are made on the
+    original and on both copies.  Required, for every write: it is accepted / rejected alike, and it reaches the model's
+    stored state (any instance attribute of any object of the nesting) in the original exactly when — and exactly where —
+    it does in the copies; in particular an accessor that hands out freshly built arrays in a copy (FusionART.W, a
+    concatenation of the channel modules' weights) hands out fresh arrays in the original, so the write reaches no model
+    at all.  Afterwards the three continue identically: outcomes, predictions, learned state, and the accessors' values."""
+    S, r = c.S, c.rng("q")
+    spec = S.spec(r)
+    est = c.build(spec, "q")
+    if est is None:
+        return
+    pre = gen_ops(S, r, spec, r.randint(1, 3))
+    pre_out = run_ops(S, est, pre)
+    if any(o[0] == "exc" for o in pre_out):
+        c.ctx.cov.hit("q:earlier-history-raised")
+        return
+    accs = accessors_of(est)
+    if not accs:
+        c.ctx.cov.hit("q:no-array-accessor")
+        return
+    plan = []
+    for path, steps, owner, acc in r.sample(accs, min(len(accs), r.randint(1, 4))):
+        plan.append({"path": path, "steps": steps, "owner": owner, "acc": acc,
+                     "idiom": r.choice(["every:scale", "every:scale", "one:assign", "every:assign"]), "j": r.randrange(8)})
+    rest = []
+    if S.has_pred and r.random() < 0.5:
+        rest.append(("pred", S.data(r, spec, r.randint(2, S.nmax))))
+    rest.append(("pfit" if S.has_pfit else "fit", S.data(r, spec, r.randint(2, S.nmax))))
+    if S.has_pred:
+        rest.append(("pred", S.data(r, spec, r.randint(2, S.nmax))))
+    rep = {"spec": spec, "earlier_ops": ops_replay(pre), "copies": ["pickle round trip", "copy.deepcopy"],
+           "writes": [{"object": p["path"], "accessor": _acc_name(p["acc"]), "class": p["owner"],
+                       "idiom": {"every:scale": "for a in <result>: a *= 0.5 (integer arrays: rolled by one)",
+                                 "one:assign": f"<result>[{p['j']} % len][...] = (1 - a)[::-1] (integer arrays: reversed)",
+                                 "every:assign": "for a in <result>: a[...] = (1 - a)[::-1] (integer arrays: reversed)"}[p["idiom"]]}
+                      for p in plan],
+           "later_ops": ops_replay(rest),
+           "idiom": "the same accessor reads, in-place writes into their results and later calls on the fitted model, on its "
+                    "pickle round trip and on its deepcopy"}
+    models = {"original": est}
+    for how, mk in (("pickle", lambda: pickle.loads(pickle.dumps(est))), ("deepcopy", lambda: copy.deepcopy(est))):
+        o = outcome(mk)
+        if o[0] == "exc":
+            c.violation(f"{S.cls}.{how}:raises", f"{how} after {ops_brief(pre)} raised {o[1]}", rep)
+            return
+        models[how] = o[1]
+    # ---- the writes, one accessor at a time, on each of the three
+    seen = {}
+    for who, m in models.items():
+        rows = []
+        for p in plan:
+            before = picture(m, ids=False)
+
+            def write():
+                leaves = _array_leaves(_read_accessor(_follow(m, p["steps"]), p["acc"]))
+                if leaves is None:
+                    return "no-arrays"
+                _write_into(leaves, p["idiom"], p["j"])
+                return "written"
+            o = outcome(write)
+            rows.append((o, pic_diff(before, picture(m, ids=False))))
+        seen[who] = rows
+    ok = True
+    for k, p in enumerate(plan):
+        o0, moved0 = seen["original"][k]
+        name = f"{p['owner']}.{_acc_name(p['acc'])}"
+        c.ctx.cov.hit(f"q:{name}:{p['idiom']}:" + ("raised" if o0[0] == "exc" else "reaches-the-model" if moved0 else "fresh-arrays-or-no-op"))
+        for who in ("pickle", "deepcopy"):
+            o1, moved1 = seen[who][k]
+            if o0 != o1:
+                ok = False
+                c.violation(f"{name}:in-place-write-into-result:accepted-differently-by-{who}-copy",
+                            f"write {k} into the result of {p['path']}.{_acc_name(p['acc'])}: original -> {o0}, {who} copy -> {o1}",
+                            dict(rep, failing_write=k, copy=who))
+            elif moved0 != moved1:
+                ok = False
+                only = "original" if moved0 and not moved1 else "copy" if moved1 and not moved0 else "both-but-elsewhere"
+                c.violation(f"{name}:in-place-write-into-result:reaches-stored-state-of-{only}",
+                            f"after {ops_brief(pre)}, writing in place into the arrays returned by {p['path']}.{_acc_name(p['acc'])} "
+                            f"({p['idiom']}) changed the stored state of the original at {moved0[:4] or 'nothing'} but of its {who} copy at "
+                            f"{moved1[:4] or 'nothing'}: the accessor hands out the model's own buffers in one and fresh arrays in the "
+                            "other, a copy does not behave like the model", dict(rep, failing_write=k, copy=who))
+        if not ok:
+            break
+    if not ok:
+        c.ctx.cov.hit("q:write-told-original-and-copy-apart")
+        return
+    # ---- the same later calls, then the same accessor reads
+    outs = {who: run_ops(S, m, rest) for who, m in models.items()}
+    chk_f_returns_self(c, outs["original"], rest, spec)
+    for who in ("pickle", "deepcopy"):
+        d = first_diff(outs["original"], outs[who])
+        if d is not None:
+            c.violation(f"{S.cls}.{how_name(who)}:continues-differently-after-write-into-accessor-result",
+                        f"after identical in-place writes into {[q['path'] + '.' + _acc_name(q['acc']) for q in plan]} the {who} copy differs "
+                        f"from the original at later call {d} ({rest[d][0]})", dict(rep, copy=who))
+            ok = False
+    if ok:
+        for p in plan:
+            vals = {who: outcome(lambda: picture(_read_accessor(_follow(m, p["steps"]), p["acc"]))) for who, m in models.items()}
+            for who in ("pickle", "deepcopy"):
+                a, b = vals["original"], vals[who]
+                if a[0] != b[0] or (a[0] == "exc" and a[1] != b[1]) or (a[0] == "ok" and pic_diff(a[1], b[1])):
+                    ok = False
+                    c.violation(f"{p['owner']}.{_acc_name(p['acc'])}:value-differs-in-{who}-copy-after-write-into-accessor-result",
+                                f"after identical writes and later calls {p['path']}.{_acc_name(p['acc'])} of the {who} copy differs from "
+                                "the original's", dict(rep, copy=who))
+    if ok:
+        c.ctx.cov.hit("q:original-and-copies-agree")
+    c.ctx.cov.case(("q", S.name, spec, ops_brief(pre), [(p["path"], _acc_name(p["acc"]), p["idiom"], p["j"]) for p in plan], ops_brief(rest)),
+                   nontrivial(pre_out + outs["original"]))
+
+
+def how_name(who: str) -> str:
+    return {"pickle": "pickle", "deepcopy": "deepcopy"}[who]
+
+
+EXTRA_SUBCHECKS.append(("q", chk_q_accessor_writes))
+
+
 def prepare(ctx):
     """Translator tie (see gen_tie.py): validate_params of the eight elementary classes and BaseART's __init__ /
     __getattr__ / __setattr__ / get_params / set_params are re-translated to Lean on every run (harness/artv/qtrans.py)
